@@ -3,6 +3,8 @@ package main
 
 import (
 	"fmt"
+	"net/http"
+	"net/http/httptest"
 	"os"
 	"regexp"
 	"sort"
@@ -13,6 +15,8 @@ import (
 	meta_v1 "k8s.io/apimachinery/pkg/apis/meta/v1"
 	"k8s.io/client-go/kubernetes/fake"
 	"k8s.io/client-go/tools/cache"
+
+	"github.com/spf13/viper"
 
 	"github.com/atlassian/gostatsd"
 	"github.com/atlassian/gostatsd/internal/verif/lib/fx"
@@ -73,6 +77,8 @@ var rcfgs = []rcfg{
 	{k8s.DefaultAnnotationTagRegex, "^(?P<tag>app)$"},
 	{"", "^team/(?P<tag>.*)$|^app$"},
 	{"", ""},
+	// one alternative per prefix, each with its own group named tag
+	{"^(?:gostatsd\\.atlassian\\.com/(?P<tag>.+)|oth(?P<tag>.+))$", "^(?:team/(?P<tag>.+)|a(?P<tag>p+))$"},
 }
 
 // op encoding: pod*100 + kind ; kind 0..len(variants)-1 = set to variant (add or update), 98 = delete, 99 = lookup(pod index = ip index)
@@ -119,8 +125,12 @@ func refTagName(re *regexp.Regexp, key string) string {
 	if m == nil || m[1]-m[0] == 0 {
 		return ""
 	}
-	if i := re.SubexpIndex("tag"); i > 0 && m[2*i] >= 0 && m[2*i+1] > m[2*i] {
-		return key[m[2*i]:m[2*i+1]]
+	// "the capture group named tag when it matched non-empty text": Go allows several groups of one name
+	// (one per alternative); the one that took part in the match counts
+	for i, n := range re.SubexpNames() {
+		if n == "tag" && m[2*i] >= 0 && m[2*i+1] > m[2*i] {
+			return key[m[2*i]:m[2*i+1]]
+		}
 	}
 	return key
 }
@@ -237,6 +247,69 @@ func (w *world) canon() string {
 	return fmt.Sprintf("%v|%s", w.pods, w.p.VerifCacheDump())
 }
 
+// viperChecks builds the provider the way the server does - NewProviderFromViper with a kubeconfig, against
+// a local stand-in for the API server that lists no pods - for every combination of empty / default /
+// custom annotation and label regexes, and looks a pod up.
+func viperChecks() {
+	srv := httptest.NewServer(http.HandlerFunc(func(w http.ResponseWriter, r *http.Request) {
+		if r.URL.Query().Get("watch") != "" {
+			w.Header().Set("Content-Type", "application/json")
+			w.WriteHeader(200)
+			if f, ok := w.(http.Flusher); ok {
+				f.Flush()
+			}
+			<-r.Context().Done()
+			return
+		}
+		w.Header().Set("Content-Type", "application/json")
+		fmt.Fprint(w, `{"kind":"PodList","apiVersion":"v1","metadata":{"resourceVersion":"1"},"items":[]}`)
+	}))
+	defer srv.Close()
+	kc := fmt.Sprintf("apiVersion: v1\nkind: Config\nclusters:\n- name: c\n  cluster:\n    server: %s\ncontexts:\n- name: x\n  context:\n    cluster: c\n    user: u\ncurrent-context: x\nusers:\n- name: u\n  user: {}\n", srv.URL)
+	path := "kubeconfig-c13.yaml"
+	if err := os.WriteFile(path, []byte(kc), 0o600); err != nil {
+		panic(err)
+	}
+	defer os.Remove(path)
+	type vc struct {
+		ann, label *string // nil: key absent from the configuration (the default applies)
+	}
+	str := func(s string) *string { return &s }
+	custom := "^(?P<tag>app)$"
+	var cases []vc
+	for _, a := range []*string{nil, str(""), str(k8s.DefaultAnnotationTagRegex), str("^oth(?P<tag>.+)$")} {
+		for _, l := range []*string{nil, str(""), str(custom), str("^team/(?P<tag>.*)$|^app$")} {
+			cases = append(cases, vc{a, l})
+		}
+	}
+	for _, c := range cases {
+		res.Evaluations++
+		m := map[string]any{"kubeconfig-path": path, "watch-cluster": true}
+		eff := rcfg{k8s.DefaultAnnotationTagRegex, k8s.DefaultLabelTagRegex}
+		if c.ann != nil {
+			m["annotation-tag-regex"], eff.Ann = *c.ann, *c.ann
+		}
+		if c.label != nil {
+			m["label-tag-regex"], eff.Label = *c.label, *c.label
+		}
+		v := viper.New()
+		v.Set("k8s", m)
+		ci, err := k8s.NewProviderFromViper(v, fx.Quiet(), "verif")
+		desc := fmt.Sprintf("configuration k8s=%v (effective regexes %+v)", m, eff)
+		if err != nil {
+			res.Violate("from-config construct", desc+": "+err.Error(), map[string]any{"viper": true})
+			continue
+		}
+		w := &world{p: ci.(*k8s.Provider), pods: [2]int{-1, -1}, c: eff}
+		for _, o := range []op{{0, 1}, {0, 99}, {1, 3}, {1, 99}} { // p0 Running at X (meta 0), lookup X, p1 Running at Y (meta 0), lookup Y
+			if msg := w.apply(o); msg != "" {
+				res.Violate("from-config lookup", desc+": "+msg, map[string]any{"viper": true})
+				break
+			}
+		}
+	}
+}
+
 func allOps() []op {
 	var ops []op
 	for p := 0; p < 2; p++ {
@@ -316,8 +389,18 @@ func main() {
 			Cfg int
 			Seq []op
 		}
+		var vp struct{ Viper bool }
 		vrt.LoadReplay(&rp)
-		_, msg := replaySeq(rcfgs[rp.Cfg], rp.Seq)
+		vrt.LoadReplay(&vp)
+		msg := ""
+		if vp.Viper {
+			viperChecks()
+			for _, v := range res.Violations {
+				msg += v.Msg + "\n"
+			}
+		} else {
+			_, msg = replaySeq(rcfgs[rp.Cfg], rp.Seq)
+		}
 		fmt.Println(rp.Seq, msg)
 		if msg != "" {
 			fmt.Printf("VIOLATION property=C13 replay=%s\n", *vrt.ReplayPath)
@@ -348,6 +431,9 @@ func main() {
 				fix = false
 			}
 		}
+	}
+	if *vrt.Shard == 0 {
+		viperChecks()
 	}
 	res.Info["fixpoint_reached"] = fix
 	res.Info["max_depth"] = maxDepth
